@@ -88,13 +88,7 @@ pub struct ExSocketAddr(std::net::SocketAddr);
 # Their results are ASSUMED to satisfy the clause that is proved for the local resolver.
 RESOLVE_STANDINS = """
 #[verifier::external_body]
-pub(crate) async fn resolve_forwarding(context: &mut Context<'_, ForwardingContextInner>, question: &Question) -> (r: Result<ResolvedRecord, ResolutionError>)
-    requires old(context).r.forward_address == configured_forwarder(), // [C18:the_context_carries_the_configured_forwarder]
-    ensures question.qtype != QueryType::Wildcard && r is Ok ==> chain_ok(resolved_rrs(r->Ok_0), question.name),
-            r is Ok ==> typed_ok(resolved_rrs(r->Ok_0), question.qtype),
-{ unimplemented!() }
-#[verifier::external_body]
-pub(crate) async fn resolve_recursive(context: &mut Context<'_, RecursiveContextInner>, question: &Question) -> (r: Result<ResolvedRecord, ResolutionError>)
+pub(crate) fn resolve_recursive(context: &mut Context<'_, RecursiveContextInner>, question: &Question) -> (r: Result<ResolvedRecord, ResolutionError>)
     requires old(context).r.upstream_dns_port == configured_port(), // [C18:the_context_carries_the_configured_port]
     ensures question.qtype != QueryType::Wildcard && r is Ok ==> chain_ok(resolved_rrs(r->Ok_0), question.name),
             r is Ok ==> typed_ok(resolved_rrs(r->Ok_0), question.qtype),
@@ -197,7 +191,7 @@ pub fn get_nxdomain_nodata_soa<'a>(question: &Question, response: &'a Message, c
 """
 
 FORWARD = {
-    "props": ["C10", "C01", "C18"],
+    "props": ["C10", "C01", "C18", "C08"],
     # R32: the synchronous reading of an async fn: `async` and `.await` removed (the future owns `&mut context` for its whole life,
     # everything it shares with other tasks is behind stand-ins without postconditions on shared state); #[async_recursion] dropped
     "header_rewrites": [("R32", r"\basync fn\b", "fn")],
@@ -228,9 +222,20 @@ FORWARD = {
     "entry": BU + " broadcast use group_chain, lemma_chain_concat_b, lemma_merged_nil_b, lemma_nil_concat_b, axiom_rr_vec_len, group_local_first, lemma_alias_concat_b, group_typed;",
 }
 
+FORWARD_WRAPPER = {
+    "props": ["C08", "C10", "C18"], "depub": True,
+    "header_rewrites": [("R32", r"\basync fn\b", "fn")],
+    "rewrites": [("R32", r"\s*\.await\b", "")],
+    "contract": """    requires old(context).wf(), old(context).r.forward_address == configured_forwarder(), // [C18:the_context_carries_the_configured_forwarder]
+    ensures question.qtype != QueryType::Wildcard && r is Ok ==> chain_ok(resolved_rrs(r->Ok_0), question.name), // [C10:forwarded_chain_in_order_from_the_question_name]
+        r is Ok ==> typed_ok(resolved_rrs(r->Ok_0), question.qtype),
+        budgeted(r) || r == Err::<ResolvedRecord, ResolutionError>(ResolutionError::Timeout), // [C08:every_resolution_runs_under_its_budget_or_reports_a_timeout]""",
+}
+
 RESOLVE = {
     "props": ["C09", "C10", "C18"],
-    "rewrites": [("R30", r"\s*\.instrument\(tracing::\w+!\((?:[^()]|\([^()]*\))*\)\)", ""),
+    "header_rewrites": [("R32", r"\basync fn\b", "fn")],
+    "rewrites": [("R32", r"\s*\.await\b", ""), ("R30", r"\s*\.instrument\(tracing::\w+!\((?:[^()]|\([^()]*\))*\)\)", ""),
                  ("R31", r"resolve_local\(&mut context, question\)\.map\(ResolvedRecord::from\)",
                   "match resolve_local(&mut context, question) { Ok(lsr__) => Ok(ResolvedRecord::from(lsr__)), Err(e__) => Err(e__) }")],
     "contract": """    requires upstream_dns_port == configured_port(), forward_address is Some ==> forward_address->Some_0 == configured_forwarder(),
@@ -242,7 +247,7 @@ RESOLVE = {
 }
 
 RESOLVE_LOCAL = {
-    "props": ["C01", "C10"],
+    "props": ["C01", "C10", "C08"],
     "anchors": [{"after": "prioritising_merge(&mut rrs, rrs_from_cache);", "at": "before", "proof": "let ghost rfc__ = rrs_from_cache@; let ghost rz__ = rrs@; assert(final_cname is Some ==> rfc__.len() > 0 && rfc__[0].name == question.name && rfc__[0].rtype_with_data is CNAME); proof { assert(question.qtype != QueryType::Wildcard ==> rrs@.len() == 0); if rrs@.len() == 0 { lemma_merged_empty(rfc__); assert(rrs@ =~= Seq::<ResourceRecord>::empty()); } }"},
                 {"after": "prioritising_merge(&mut rrs, rrs_from_cache);", "proof": """proof {
     if question.qtype != QueryType::Wildcard {
@@ -628,6 +633,9 @@ def build(G):
     G.impl(U, "ResolvedRecord", ["soa_rr"], "ResolvedRecord::", specs)
     specs["resolve_forwarding_notimeout"] = dict(FORWARD)
     G.top_fn(F, "resolve_forwarding_notimeout", specs)
+    G.raw(timeout_standin(60_000_000_000, "every_resolution_has_a_60_second_budget"), ("spec", "timeout stand-in"))
+    specs["resolve_forwarding"] = dict(FORWARD_WRAPPER)
+    G.top_fn(F, "resolve_forwarding", specs)
     G.raw(RESOLVE_STANDINS, ("spec", "resolver stand-ins"))
     specs["resolve"] = dict(RESOLVE, depub=True)
     G.top_fn(LIB, "resolve", specs)
@@ -635,6 +643,7 @@ def build(G):
 
 
 CANARIES = [
+    {"name": "forwarding_budget_five_minutes", "file": "crates/dns-resolver/src/forwarding.rs", "old": "        Duration::from_mins(1),\n        resolve_forwarding_notimeout(context, question),", "new": "        Duration::from_mins(5),\n        resolve_forwarding_notimeout(context, question),"},
     {"name": "forwarding_asks_upstream_despite_local_answer", "file": "crates/dns-resolver/src/forwarding.rs", "old": "Ok(LocalResolutionResult::Done { resolved }) => return Ok(resolved),", "new": "Ok(LocalResolutionResult::Done { resolved }) => combined_rrs = resolved.rrs(),"},
     {"name": "forwarding_chain_tail_first", "file": "crates/dns-resolver/src/forwarding.rs", "old": "                    combined_rrs.append(&mut rrs);\n                    combined_rrs.append(&mut r_rrs);", "new": "                    combined_rrs.append(&mut r_rrs);\n                    combined_rrs.append(&mut rrs);"},
     {"name": "forwarding_forgets_the_loop_guard", "file": "crates/dns-resolver/src/forwarding.rs", "old": "            context.push_question(question);\n            let answer = match resolve_forwarding_notimeout", "new": "            let answer = match resolve_forwarding_notimeout"},
